@@ -52,7 +52,44 @@ def st_stamp():
     ).map(bytes.hex)
 
 
+def crc_zero_prefix_tm(c, max_n=600):
+    """As c02.crc_zero_prefix_tc: make the CRC-16 over the primary header, or over primary + secondary header (timestamp included),
+    exactly 0x0000 by choosing sequence count / source-data length, or destination id / the last two timestamp octets."""
+    from ..ref.crc import crc16_fast
+
+    c = dict(c)
+    stamp = bytes.fromhex(c["timestamp"])
+    src = expand_fill(c["source_data"])
+    if c.pop("_zero_at", 13) == 13:
+        hdr = RC.sp_header(c["ver"], 0, 1, c["apid"], 3, c["seq"], 7 + len(stamp) + len(src) + 2 - 1)
+        sec = bytes([0x20 | c["time_ref"], c["service"], c["subservice"]]) + c["msg_counter"].to_bytes(2, "big")
+        if len(stamp) >= 2:
+            dest = c["dest_id"].to_bytes(2, "big")
+            pre = hdr + sec + dest + stamp[:-2]
+            c["timestamp"] = (stamp[:-2] + crc16_fast(pre).to_bytes(2, "big")).hex()
+        else:
+            stamp = b""
+            c["timestamp"] = ""
+            hdr = RC.sp_header(c["ver"], 0, 1, c["apid"], 3, c["seq"], 7 + len(src) + 2 - 1)
+            c["dest_id"] = crc16_fast(hdr + sec)
+        return c
+    for seq in range(c["seq"], c["seq"] + 16384):
+        first4 = RC.sp_header(c["ver"], 0, 1, c["apid"], 3, seq % 16384, 0)[:4]
+        n = crc16_fast(first4) + 1 - 7 - len(stamp) - 2
+        if 0 <= n <= max_n:
+            c["seq"] = seq % 16384
+            c["source_data"] = {"len": n, "fill": c["service"], "step": 1}
+            return c
+    return c
+
+
 def st_tm(big=(255, 256, 1000, 4096), service=None):
+    base = _st_tm_plain(big, service)
+    zero = st.tuples(_st_tm_plain((), service), st.sampled_from([6, 13])).map(lambda t: crc_zero_prefix_tm({**t[0], "_zero_at": t[1]}))
+    return st.one_of(base, base, base, base, base, base, base, zero)
+
+
+def _st_tm_plain(big=(255, 256, 1000, 4096), service=None):
     return st.fixed_dictionaries(
         {
             "service": uint(8) if service is None else st.just(service),
@@ -146,6 +183,29 @@ def _tm_histories(sp, tmm, check_pus_crc, Service17Tm, c, stamp, src, want, wo, 
     devs = []
     ts = len(stamp)
     pack_fresh(devs, "hist.pack_returns_fresh_buffer", tm.pack, want)
+    # equality does not depend on whether either side was ever packed
+    true(devs, "hist.eq_decoded_vs_never_packed", bool(tmm.PusTm.unpack(want, ts) == build_tm(tmm, c, stamp, src)) and bool(build_tm(tmm, c, stamp, src) == tmm.PusTm.unpack(want, ts)),
+         "decoded telemetry != telemetry with identical fields that was never packed")
+    # an operation on ANOTHER packet was refused just before (out-of-range field): the next valid one is unaffected
+    for bad_kw in ({"destination_id": 0x10000}, {"space_time_ref": 0x100}, {"source_data": "not octets"}):
+        try:
+            kw = dict(service=c["service"], subservice=c["subservice"], timestamp=stamp, source_data=src, apid=c["apid"], seq_count=c["seq"], message_counter=c["msg_counter"],
+                      space_time_ref=c["time_ref"], destination_id=c["dest_id"], packet_version=c["ver"])
+            kw.update(bad_kw)
+            bad = tmm.PusTm(**kw)
+            for op in (bad.calc_crc, bad.to_space_packet, bad.pack):
+                try:
+                    op()
+                except Exception:  # noqa: BLE001 - the refusal itself is not under test here
+                    pass
+        except Exception:  # noqa: BLE001
+            pass
+        tag = "after_refused_" + next(iter(bad_kw))
+        eq(devs, f"hist.{tag}.view", bytes(build_tm(tmm, c, stamp, src).to_space_packet().pack()), want)
+        fresh2 = build_tm(tmm, c, stamp, src)
+        fresh2.calc_crc()
+        eq(devs, f"hist.{tag}.calc_crc", bytes(fresh2.crc16), want[-2:])
+        eq(devs, f"hist.{tag}.pack", bytes(build_tm(tmm, c, stamp, src).pack()), want)
     c_src, c_stamp = bytearray(src), bytearray(stamp)
     t = build_tm(tmm, c, c_stamp, c_src)
     eq(devs, "hist.bytearray_inputs.view1", bytes(t.to_space_packet().pack()), want)
